@@ -374,7 +374,7 @@ let op_tq (a : string array) : string =
   let bytes = List.concat (List.map (fun (t, seg) -> List.map (fun b -> (t, b)) seg) (parse_arrivals a.(12))) in
   let srv = { tp_accept = (if a.(11) = "-" then None else Some (n_of_int (int_of_string a.(11))));
               tp_bytes = bytes; tp_eof = (if a.(13) = "-" then None else Some (n_of_int (int_of_string a.(13)))) } in
-  let (((sends, ev), r), t) = client_query_timed std smol q lifetime qt zero_jit buf strategy arrs srv in
+  let (((sends, ev), r), t) = client_query_timed std smol q lifetime qt zero_jit zero_jit buf strategy arrs srv in
   abn r;
   Printf.sprintf "S=%s EV=%s T=%d R=%s" (String.concat "," (List.map (fun x -> string_of_int (ni x)) sends))
     (String.concat "" (List.map (fun e -> match e with EvUdpExchange -> "U" | EvTcpExchange -> "T") ev)) (ni t) (res_line r)
@@ -385,7 +385,7 @@ let op_th (a : string array) : string =
   let qt = if a.(2) = "-" then None else Some (n_of_int (int_of_string a.(2))) in
   let queue = parse_arrivals a.(3) in
   let rec qs i = if i + 4 < Array.length a then tquery_of a i (int_of_string a.(i+4)) :: qs (i + 5) else [] in
-  let outs = udp_history std smol lifetime qt zero_jit (qs 4) queue in
+  let outs = udp_history std smol lifetime qt zero_jit zero_jit (qs 4) queue in
   String.concat " | " (List.map (fun ((sends, r), t) ->
       abn r;
       Printf.sprintf "S=%s T=%d R=%s" (String.concat "," (List.map (fun x -> string_of_int (ni x)) sends)) (ni t)
